@@ -709,12 +709,7 @@ class LowerToIRVisitor(Visitor.DefaultVisitor):
         ctx.Module.Metadata["functions"] = [
             f.GetType() for f in module.GetFunctions()
         ]
-        ctx.Module.Metadata["types"] = {
-            d.GetName(): d.GetType()
-            for d in itertools.chain(
-                *[gd.GetDeclarations() for gd in module.GetDeclarations()]
-            )
-        }
+        ctx.Module.Metadata["types"] = [t.GetType() for t in module.GetTypes()]
 
         for importName in module.GetImports():
             ctx.Module.AddImport(importName)
